@@ -134,7 +134,7 @@ def alphabet(seed, prof="full", plus=True):
     G("arc", "retr")
     if not lite:
         for a, c, g in (((250, 0), "min", "retr"), ((4000, 15), "max", "retr"), ((1000, 3), "in-domain", "retr"), ((0, -1), "below", "retr"),
-                        ((5000, 16), "above", "retr"), ((499, 7), "not-multiple", None)):
+                        ((5000, 16), "above", "retr"), ((499, 7), "not-multiple", None), ((1500, 15), "values-already-in-effect", "retr")):
             C("set_auto_retries", a, c, g)
         C("get_auto_retries", (), "-", "retr")
     # ---- EN_AA / DYNPD / FEATURE
@@ -292,6 +292,9 @@ def same(a, b):
 
 
 CLOBBER_REGS = (R.CONFIG, R.EN_AA, R.SETUP_RETR, R.TX_ADDR)  # documented side effects of the non-plus carrier test
+# a setter that programs a WHOLE register re-establishes it, also after the non-plus carrier test ("each register field holds the
+# documented encoding of the value last set"): from then on that register is judged again
+FULL_OWNERS = {"set_auto_retries": (R.SETUP_RETR,), "auto_ack": (R.EN_AA,)}
 
 
 class Ctx:
@@ -312,7 +315,7 @@ class Ctx:
         self.bad = {}  # ... and those among them that violated one: state -> (clause, getter name, text)
         self.merge = False  # merge bit-identical states in the sequence enumeration (thorough tier only)
         self.expanded = set()
-        self.idx_after_clobber = [i for i, e in enumerate(self.A) if e[1] in ("stop_carrier_wave", "reenter")]
+        self.idx_after_clobber = [i for i, e in enumerate(self.A) if e[1] in ("stop_carrier_wave", "reenter") or (e[0] != "get" and e[1] in FULL_OWNERS and not (e[1] == "auto_ack" and not isinstance(e[2][0], (bool, int))))]
         self.found = []  # (sig, what) of the current step (for replay)
 
     # -- helpers
@@ -372,7 +375,11 @@ class Ctx:
         else:
             outs = ref.outcomes(call)
         clob = outs[0].ref.clobbered
-        skip = CLOBBER_REGS if clob else ()
+        if clob and exc is None and call[0] != "get" and name in FULL_OWNERS and not (name == "auto_ack" and not isinstance(call[2][0], (bool, int))):
+            # (the list form of auto_ack only touches the pipes it names)
+            for o in outs:
+                o.ref.unclob = o.ref.unclob | frozenset(FULL_OWNERS[name])
+        skip = tuple(k for k in CLOBBER_REGS if k not in outs[0].ref.unclob) if clob else ()
 
         def delta(o):
             d = R.diff(o.ref.regfile(), obs)
